@@ -294,7 +294,7 @@ def rat_eval(node, env):
                 if c == 1 and len(m) == 1 and m[0][1] == 1 and \
                         isinstance(m[0][0], tuple) and m[0][0][0] == 'cos':
                     return m[0][0][2]      # arccos(cos(u)) = u on [0, pi]
-            raise ValueError('arccos of a non-cosine')
+            return Rat(Poly.sym(('arccos', x.key())))
         raise ValueError('call %s' % name)
     raise ValueError(type(node).__name__)
 
